@@ -14,7 +14,7 @@ Statically decided clauses:
 Not decided: carry resolution arithmetic, sealing arithmetic, FIFO value identity, maybe_exhausted after the
 last symbol.
 """
-from vlib import sym, rules, effects, anchors
+from vlib import pow2, sym, rules, effects, anchors
 import props.C07 as c07
 import props.C08 as c08
 import props.C18 as c18
@@ -324,6 +324,149 @@ def check_wrapping_distance(ctx, F):
         ctx.ok('R4', role, anchors.RDEC, '%d expressions relate point and lower, all through wrapping_sub' % n_sites, key=key)
 
 
+def _seal_addend(spaths):
+    """(A, k): seal() writes  ((lower +w A) >> k) as Word."""
+    for r in spaths or []:
+        for e in r.events:
+            if e['kind'] != 'call' or not e['callee'].endswith('WriteWords::write'):
+                continue
+            for a in e['args']:
+                for x in sym.subterms(a):
+                    if isinstance(x, tuple) and x and x[0] == 'bin' and x[1] == 'Shr' and isinstance(x[2], tuple) and x[2][0] == 'bin' and x[2][1].split('.')[0] == 'Add':
+                        for l, add in ((x[2][2], x[2][3]), (x[2][3], x[2][2])):
+                            if c18._is_field(l, 'state', 'lower') and pow2.p2(add) is not None and pow2.width_exp(x[3]) is not None:
+                                return pow2.p2(add), pow2.width_exp(x[3]), add
+    return None, None, None
+
+
+def _carry_threshold(t, v, lower_is, SBITS):
+    """Canonical form `lower >= C` of a branch outcome on `lower` (C a power-of-two polynomial), or None."""
+    while isinstance(t, tuple) and t and t[0] == 'not':
+        t, v = t[1], not v
+    if not (isinstance(t, tuple) and t and t[0] == 'bin') or not v:
+        return None
+    op = t[1].split('.')[0]
+    a, b = t[2], t[3]
+    if op in ('Gt', 'Ge'):
+        a, b = b, a
+        op = {'Gt': 'Lt', 'Ge': 'Le'}[op]
+    full = pow2.P2([(SBITS, 1)])
+    if op == 'Lt' and lower_is(b) and isinstance(a, tuple) and a[0] == 'bin' and a[1] == 'Add.w':
+        # lower +w A < lower  <=>  the addition wrapped  <=>  lower >= 2^S - A
+        for l, add in ((a[2], a[3]), (a[3], a[2])):
+            if lower_is(l) and pow2.p2(add) is not None:
+                return full.plus(pow2.p2(add), -1)
+    if op in ('Lt', 'Le') and lower_is(b) and pow2.p2(a) is not None:
+        # P < lower  /  P <= lower
+        return pow2.p2(a).plus(pow2.P2([(pow2.E0, 1)])) if op == 'Lt' else pow2.p2(a)
+    if op == 'Eq':
+        for x, m in ((a, b), (b, a)):
+            x = c18.peel(x)
+            if isinstance(x, tuple) and x and x[0] == 'cast':
+                x = x[2]
+            if isinstance(x, tuple) and x and x[0] == 'bin' and x[1] == 'Shr' and lower_is(x[2]) and pow2.width_exp(x[3]) is not None and isinstance(m, tuple) and m[:2] == ('k', 'max_value'):
+                k = pow2.width_exp(x[3])
+                top_bits = pow2._exp_add(SBITS, k, -1)
+                if pow2.exp_cmp(top_bits, pow2.bits_of(m[2])) == 0:
+                    # the top word of lower is all ones  <=>  lower >= 2^S - 2^k
+                    return full.plus(pow2.P2([(k, 1)]), -1)
+    return None
+
+
+def check_seal_point(ctx, F):
+    """seal() finishes the stream with the top word(s) of  point = lower +w A.
+    (1) The point identifies the last symbol only if it lies inside the final interval [lower, lower + range); the encoder
+        keeps range >= 2^E (the bound its renormalisation test restores), so A + 1 <= 2^E is required.
+    (2) Held-back words are released with a carry exactly when that addition wrapped: the deciding test, canonicalised to
+        `lower >= C`, must have C = 2^State::BITS - A.
+    A, E and C are read from the code as power-of-two polynomials over the symbolic widths."""
+    parts = anchors.range_encoder_parts(F)
+    seal, enc = parts.get('seal'), anchors.method(F, RENC, 'encode_symbol', 'stream::Encode')
+    key1, key2 = 'R10/seal-point-inside/' + RENC, 'R10/seal-carry-threshold/' + RENC
+    role1 = 'the sealing point lies inside the final interval'
+    role2 = 'held-back words are released with a carry exactly when lower + A wrapped'
+    if seal is None or enc is None:
+        ctx.unresolved('R10', role1, RENC, 'seal or encode_symbol not found', key=key1)
+        return
+    ctx.touch(seal); ctx.touch(enc)
+    _, spaths = rules.evaluate(seal)
+    _, epaths = rules.evaluate(enc)
+    A, k, A_term = _seal_addend(spaths)
+    SB = pow2.bits_of('State')
+    lower_is = lambda x: c18._is_field(x, 'state', 'lower')
+    # (1) the renormalisation bound of range
+    Es = set()
+    for r in epaths or []:
+        for t, v, _ in r.preds:
+            c = pow2.below_pow2(t, v, lambda x: SB)
+            if c is not None and not sym.contains(c[0], lambda x: c18._is_field(x, 'state', 'lower')) and 'BITS' in sym.affine_str(c[1]):
+                Es.add(pow2._exp_key(c[1]))
+                E = c[1]
+    if A is None:
+        ctx.unresolved('R10', role1, seal.defpath, 'sealing addend not recognised', key=key1)
+    elif len(Es) != 1:
+        ctx.unresolved('R10', role1, enc.defpath, 'renormalisation bound of range not recognised (%d candidates)' % len(Es), key=key1)
+    else:
+        d = pow2.P2([(E, 1)]).plus(A, -1).plus(pow2.P2([(pow2.E0, 1)]), -1)
+        sg = d.sign(exps_nonneg=True)
+        if sg in ('zero', 'pos', 'nonneg'):
+            ctx.ok('R10', role1, seal.defpath, 'A = %s, range >= 2^(%s): 2^E - (A + 1) = %s >= 0' % (A.show(), sym.affine_str(E), d.show()), key=key1)
+        elif sg == 'neg':
+            ctx.bad('R10', role1, seal.defpath, 'seal() emits the top of lower + A with A = %s, but the encoder only guarantees range >= 2^(%s): when range is at that minimum the point is lower + range, the first value *outside* the final interval, and the last symbol decodes wrongly' % (A.show(), sym.affine_str(E)), key=key1, loc=rules.loc(seal))
+        else:
+            ctx.unresolved('R10', role1, seal.defpath, 'sign of 2^E - (A + 1) = %s not decidable' % d.show(), key=key1)
+    # (2) carry decision
+    if A is None:
+        ctx.unresolved('R10', role2, seal.defpath, 'sealing addend not recognised', key=key2)
+        return
+    want = pow2.P2([(SB, 1)]).plus(A, -1)
+    n_carry = 0
+    verdict = None
+    for r in spaths or []:
+        ws = [e for e in r.events if c08.is_call_on(e, 'WriteWords::write', (1, 'deref', ('f', 'bulk')))]
+        if not ws:
+            continue
+        first = role_words(ws[0]['args'][1])
+        if not (sym.contains(first, lambda x: x == ('W',)) and first != ('W',)):
+            continue       # not the carried release of the held-back word
+        n_carry += 1
+        cs = []
+        unknown = []
+        for t, v, _ in r.preds:
+            if not sym.contains(t, lower_is) or sym.contains(t, lambda x: isinstance(x, tuple) and x and x[0] == 'call' and x[3] is not None):
+                continue
+            if ws[0]['block'] is not None and False:
+                pass
+            c = _carry_threshold(t, v, lower_is, SB)
+            if c is not None:
+                cs.append(c)
+            elif t[0] == 'bin' and t[1].split('.')[0] in ('Lt', 'Le', 'Gt', 'Ge', 'Eq', 'Ne') and not sym.contains(t, lambda x: c18._is_field(x, 'state', 'range')) and v:
+                # later equalities between emitted words are not the carry decision
+                if t[1].split('.')[0] == 'Eq' and sym.contains(t, lambda x: isinstance(x, tuple) and x and x[0] == 'bin' and x[1] == 'Add.w'):
+                    continue
+                unknown.append(sym.show(t)[:80])
+        if not cs:
+            verdict = verdict or ('unresolved', 'the test that selects the carried release is not in a recognised form (%s)' % '; '.join(unknown[:2]))
+            continue
+        for c in cs:
+            d = c.plus(want, -1)
+            if d.sign() == 'zero':
+                continue
+            sgd = d.sign(exps_nonneg=True)
+            if sgd in ('pos', 'neg') or (sgd == 'nonneg' and not d.sign() == 'zero'):
+                verdict = ('bad', 'the carried release is chosen when lower >= %s, but lower + A (A = %s) wraps exactly when lower >= %s: for the values in between the held-back words are released with the wrong carry and the stream decodes to different symbols' % (c.show(), A.show(), want.show()))
+            else:
+                verdict = verdict or ('unresolved', 'threshold %s vs %s not comparable' % (c.show(), want.show()))
+    if n_carry == 0:
+        ctx.unresolved('R10', role2, seal.defpath, 'no path releases a held-back word with a carry', key=key2)
+    elif verdict and verdict[0] == 'bad':
+        ctx.bad('R10', role2, seal.defpath, verdict[1], key=key2, loc=rules.loc(seal))
+    elif verdict:
+        ctx.unresolved('R10', role2, seal.defpath, verdict[1], key=key2)
+    else:
+        ctx.ok('R10', role2, seal.defpath, '%d carried path(s): chosen iff lower >= %s = 2^S - A' % (n_carry, want.show()), key=key2)
+
+
 def check_sealing_conversions(ctx, F):
     """Every `From<RangeEncoder<..>>` conversion hands out the words of a *sealed* stream: it reaches seal() through the
     call graph (via into_compressed / into_decoder), never the raw parts."""
@@ -372,6 +515,7 @@ def run(ctx):
     check_flush_siblings(ctx, F)
     c08.check_encoder_guard(ctx, F)
     check_mirror(ctx, F)
+    check_seal_point(ctx, F)
     c18.check_exhaustion_tolerance(ctx, F)   # "after the last symbol the decoder reports that it may be exhausted"
     if ctx.tier == 'thorough':
         from vlib import witness
